@@ -282,12 +282,34 @@ class _Canon(ast.NodeTransformer):
         # of the module is as static as one over a local literal (normalize.unroll_static_loops)
         from .normalize import module_tables
         self._module_tables = module_tables(n)
+        self._module = n
+        self._classes = []
         return self.generic_visit(n)
 
+    def visit_ClassDef(self, n):
+        # class-level tables `_NAME = (<literals>)` bound once and never re-bound / mutated through an attribute anywhere in the
+        # module: a loop `for a, b in self._NAME` inside a method of the class is static too
+        from .normalize import class_tables
+        stack = self.__dict__.setdefault("_classes", [])
+        stack.append((n.name, class_tables(n, getattr(self, "_module", None)), 0))
+        try:
+            return self.generic_visit(n)
+        finally:
+            stack.pop()
+
     def visit_FunctionDef(self, n):
-        n = self.generic_visit(n)
+        stack = self.__dict__.setdefault("_classes", [])
+        # only the functions directly in a class body are its methods (a def nested in a method has its own parameters)
+        if stack:
+            stack[-1] = (stack[-1][0], stack[-1][1], stack[-1][2] + 1)
+        try:
+            n = self.generic_visit(n)
+        finally:
+            if stack:
+                stack[-1] = (stack[-1][0], stack[-1][1], stack[-1][2] - 1)
         from .normalize import normalize_function
-        return normalize_function(n, getattr(self, "_module_tables", None))
+        cname, ctables = (stack[-1][0], stack[-1][1]) if stack and stack[-1][2] == 0 else (None, None)
+        return normalize_function(n, getattr(self, "_module_tables", None), ctables, cname)
 
     def visit_IfExp(self, n):
         self.generic_visit(n)
